@@ -185,8 +185,8 @@ theorem names0_ok (b : Bytes) : ∀ (k pos : Nat) (c : Cost) (l : List Int) (c' 
 
 theorem run_ok (n first : Nat) : ∀ (k i len : Nat) (c : Cost) (l : List Int) (c' : Cost),
     run n first k i len c = .ok (l, c') →
-      l.length = k ∧ c'.steps = c.steps + k ∧ c'.alloc ≤ c.alloc + (len + k - n) ∧
-      (len + k ≤ n → c'.alloc = c.alloc)
+      l.length = k ∧ c'.steps = c.steps + k ∧ c'.alloc ≤ c.alloc + k ∧
+      (len ≤ n → c'.alloc ≤ c.alloc + (len + k - n)) ∧ (len + k ≤ n → c'.alloc = c.alloc)
   | 0, _, _, c, l, c', h => by
     unfold run at h
     cases h
@@ -196,15 +196,18 @@ theorem run_ok (n first : Nat) : ∀ (k i len : Nat) (c : Cost) (l : List Int) (
     split at h
     · cases h
     · obtain ⟨⟨l1, c1⟩, h1, h⟩ := bind_eq_ok h
-      have ih := run_ok n first k (i + 1) (len + 1) _ l1 c1 h1
+      obtain ⟨i1, i2, i3, i4, i5⟩ := run_ok n first k (i + 1) (len + 1) _ l1 c1 h1
       cases h
       by_cases hl : len ≥ n
-      · rw [if_pos hl] at ih
-        simp only [List.length_cons, Cost.tick, Cost.mem] at ih ⊢
-        omega
-      · rw [if_neg hl] at ih
-        simp only [List.length_cons, Cost.tick] at ih ⊢
-        omega
+      · rw [if_pos hl] at i2 i3 i4 i5
+        simp only [List.length_cons, Cost.tick, Cost.mem] at i1 i2 i3 ⊢
+        exact ⟨by omega, by omega, by omega, fun _ => by omega, fun _ => by omega⟩
+      · rw [if_neg hl] at i2 i3 i4 i5
+        simp only [List.length_cons, Cost.tick] at i1 i2 i3 i4 i5 ⊢
+        refine ⟨by omega, by omega, by omega, fun _ => ?_, fun hle => ?_⟩
+        · have := i4 (by omega)
+          omega
+        · exact i5 (by omega)
 
 theorem run_err {n first k i len : Nat} {c : Cost} {e : String} :
     run n first k i len c = .err e → e = "other" := by
@@ -233,23 +236,34 @@ theorem ranges_ok (b : Bytes) (w n : Nat) : ∀ (fuel len pos : Nat) (c : Cost) 
     · rename_i hlt
       cases h
       simp only [List.length_nil]
-      omega
+      exact ⟨by omega, fun _ => by omega, fun _ => by omega, fun _ => by trivial, by omega⟩
   | fuel+1, len, pos, c, l, pos', c', h => by
     unfold ranges at h
     split at h
-    · obtain ⟨first, _, h⟩ := bind_eq_ok h
+    · rename_i hlt
+      obtain ⟨first, _, h⟩ := bind_eq_ok h
       obtain ⟨nLeft, _, h⟩ := bind_eq_ok h
       obtain ⟨⟨l1, c1⟩, h1, h⟩ := bind_eq_ok h
       obtain ⟨⟨⟨l2, p2⟩, c2⟩, h2, h⟩ := bind_eq_ok h
+      obtain ⟨r1, r2, r0, r3, r4⟩ := run_ok n first (nLeft + 1) 0 len _ l1 c1 h1
+      have r3 := r3 (by omega)
+      obtain ⟨j1, j2, j3, j4, j5⟩ := ranges_ok b w n fuel _ _ c1 l2 p2 c2 h2
       cases h
-      have hr := run_ok n first (nLeft + 1) 0 len _ l1 c1 h1
-      have ih := ranges_ok b w n fuel _ _ c1 l2 pos' c' h2
-      simp only [List.length_append, Cost.tick] at hr ih ⊢
-      omega
+      simp only [List.length_append, Cost.tick] at r1 r2 r0 r3 r4 j1 j2 j3 j4 j5 ⊢
+      refine ⟨by omega, fun _ => ?_, fun _ => by omega, fun hle => ?_, by omega⟩
+      · by_cases hc : len + (nLeft + 1) ≤ n
+        · have := r4 hc
+          have := j2 hc
+          omega
+        · have := j3 (by omega)
+          omega
+      · have := r4 (by omega)
+        have := j4 (by omega)
+        omega
     · rename_i hlt
       cases h
       simp only [List.length_nil]
-      omega
+      exact ⟨by omega, fun _ => by omega, fun _ => by omega, fun _ => by trivial, by omega⟩
 
 /-- the fuel of the range loop is never exhausted -/
 theorem ranges_fuel (b : Bytes) (w n : Nat) : ∀ (fuel len pos : Nat) (c : Cost) (e : String),
@@ -291,9 +305,9 @@ theorem readCharset_cost (b : Bytes) (nGlyphs : Int) (l : List Int) (pos : Nat) 
     rw [Gdef.mkSlice_ok _ _ _ (by omega), ok_bind] at h
     split at h
     · obtain ⟨⟨l1, c1⟩, h1, h⟩ := bind_eq_ok h
+      obtain ⟨n1, n2, n3, _⟩ := names0_ok b _ _ _ l1 c1 h1
       cases h
-      have := names0_ok b _ _ _ l1 c1 h1
-      simp only [List.length_cons, Cost.tick, Cost.mem, Cost.zero] at this ⊢
+      simp only [List.length_cons, Cost.tick, Cost.mem, Cost.zero] at n1 n2 n3 ⊢
       omega
     · split at h
       · obtain ⟨⟨⟨l1, p1⟩, c1⟩, h1, h⟩ := bind_eq_ok h
@@ -302,8 +316,9 @@ theorem readCharset_cost (b : Bytes) (nGlyphs : Int) (l : List Int) (pos : Nat) 
         · cases h
         · rename_i hlen
           cases h
-          have := ranges_ok b _ _ _ _ _ _ l1 pos c h1
-          simp only [List.length_cons, Cost.tick, Cost.mem, Cost.zero] at this ⊢
+          obtain ⟨j1, j2, _, j4, j5⟩ := ranges_ok b _ _ _ _ _ _ l1 pos c h1
+          have := j4 (by omega)
+          simp only [List.length_cons, Cost.tick, Cost.mem, Cost.zero] at j1 this ⊢
           omega
       · cases h
 
@@ -343,5 +358,661 @@ theorem readCharset_no_fuel (b : Bytes) (nGlyphs : Int) : readCharset b nGlyphs 
           · exact err_ne (by decide) h
           · cases h
       · exact err_ne (by decide) h
+
+/-! ## `readEncoding` -/
+
+theorem setAt_length {site : String} {xs ys : List α} {i : Nat} {v : α}
+    (h : setAt site xs i v = .ok ys) : ys.length = xs.length := by
+  unfold setAt at h
+  split at h
+  · cases h; exact List.length_set
+  · cases h
+
+/-- format 0 loop: no panic (a byte indexes the 256-entry vector), the vector keeps its length,
+one step per code -/
+theorem codes0_spec : ∀ (codes : List UInt8) (res : List Nat) (cur : Nat) (c : Cost),
+    res.length = 256 → (codes0 codes res cur c).noPanic ∧
+      ∀ res' cur' c', codes0 codes res cur c = .ok ((res', cur'), c') →
+        res'.length = 256 ∧ c'.steps = c.steps + codes.length ∧ c'.alloc = c.alloc
+  | [], res, cur, c, hl => by
+    unfold codes0
+    refine ⟨True.intro, fun res' cur' c' h => ?_⟩
+    cases h
+    exact ⟨hl, rfl, rfl⟩
+  | x :: rest, res, cur, c, hl => by
+    have hx := x.toNat_lt
+    unfold codes0
+    rw [idx_ok _ res x.toNat (by omega), ok_bind]
+    split
+    · exact ⟨True.intro, fun _ _ _ h => by cases h⟩
+    · rw [setAt_ok _ _ _ _ (by omega), ok_bind]
+      have ih := codes0_spec rest (res.set x.toNat cur) ((cur + 1) % 65536) c.tick
+        (by rw [List.length_set]; exact hl)
+      refine ⟨ih.1, fun res' cur' c' h => ?_⟩
+      have := ih.2 res' cur' c' h
+      simp only [List.length_cons, Cost.tick] at this ⊢
+      omega
+
+theorem range1_spec (nCs : Nat) : ∀ (k j : Nat) (res : List Nat) (cur : Nat) (c : Cost),
+    res.length = 256 → j + k ≤ 256 → (range1 nCs k j res cur c).noPanic ∧
+      ∀ res' cur' c', range1 nCs k j res cur c = .ok ((res', cur'), c') →
+        res'.length = 256 ∧ c'.steps = c.steps + k ∧ c'.alloc = c.alloc
+  | 0, j, res, cur, c, hl, _ => by
+    unfold range1
+    refine ⟨True.intro, fun res' cur' c' h => ?_⟩
+    cases h
+    exact ⟨hl, rfl, rfl⟩
+  | k+1, j, res, cur, c, hl, hj => by
+    unfold range1
+    split
+    · exact ⟨True.intro, fun _ _ _ h => by cases h⟩
+    · rw [idx_ok _ res j (by omega), ok_bind]
+      split
+      · exact ⟨True.intro, fun _ _ _ h => by cases h⟩
+      · rw [setAt_ok _ _ _ _ (by omega), ok_bind]
+        have ih := range1_spec nCs k (j + 1) (res.set j cur) ((cur + 1) % 65536) c.tick
+          (by rw [List.length_set]; exact hl) (by omega)
+        refine ⟨ih.1, fun res' cur' c' h => ?_⟩
+        have := ih.2 res' cur' c' h
+        simp only [Cost.tick] at this ⊢
+        omega
+
+theorem ranges1_spec (b : Bytes) (nCs : Nat) : ∀ (k pos : Nat) (res : List Nat) (cur : Nat)
+    (c : Cost), res.length = 256 → (ranges1 b nCs k pos res cur c).noPanic ∧
+      ∀ res' cur' pos' c', ranges1 b nCs k pos res cur c = .ok ((res', cur', pos'), c') →
+        res'.length = 256 ∧ c'.steps ≤ c.steps + 258 * k ∧ c'.alloc = c.alloc
+  | 0, pos, res, cur, c, hl => by
+    unfold ranges1
+    refine ⟨True.intro, fun res' cur' pos' c' h => ?_⟩
+    cases h
+    exact ⟨hl, by omega, rfl⟩
+  | k+1, pos, res, cur, c, hl => by
+    unfold ranges1
+    constructor
+    · refine bind_noPanic (u8_noPanic _ _ _) (fun first hf => ?_)
+      refine bind_noPanic (u8_noPanic _ _ _) (fun nLeft hn => ?_)
+      split
+      · exact True.intro
+      · have h1 := (u8_ok hf).1
+        have h2 := (u8_ok hn).1
+        dsimp only
+        have hr := range1_spec nCs ((first + nLeft) % 256 + 1 - first) first res cur (c.tick 2) hl
+          (by omega)
+        refine bind_noPanic hr.1 (fun r hr' => ?_)
+        obtain ⟨⟨res1, cur1⟩, c1⟩ := r
+        exact (ranges1_spec b nCs k (pos + 2) res1 cur1 c1 (hr.2 _ _ _ hr').1).1
+    · intro res' cur' pos' c' h
+      obtain ⟨first, hf, h⟩ := bind_eq_ok h
+      obtain ⟨nLeft, hn, h⟩ := bind_eq_ok h
+      have h1 := (u8_ok hf).1
+      have h2 := (u8_ok hn).1
+      split at h
+      · cases h
+      · dsimp only at h
+        obtain ⟨⟨⟨res1, cur1⟩, c1⟩, hr', h⟩ := bind_eq_ok h
+        obtain ⟨r1, r2, r3⟩ := (range1_spec nCs ((first + nLeft) % 256 + 1 - first) first res cur
+          (c.tick 2) hl (by omega)).2 _ _ _ hr'
+        obtain ⟨i1, i2, i3⟩ := (ranges1_spec b nCs k (pos + 2) res1 cur1 c1 r1).2 _ _ _ _ h
+        simp only [Cost.tick] at r2 r3 i2 i3 ⊢
+        exact ⟨i1, by omega, by omega⟩
+
+theorem sups_spec (b : Bytes) (charset : List Int) : ∀ (k pos : Nat) (res : List Nat) (cur : Nat)
+    (c : Cost), res.length = 256 → (sups b charset k pos res cur c).noPanic ∧
+      ∀ res' c', sups b charset k pos res cur c = .ok (res', c') →
+        res'.length = 256 ∧ c'.steps = c.steps + 2 * k ∧ c'.alloc = c.alloc
+  | 0, pos, res, cur, c, hl => by
+    unfold sups
+    refine ⟨True.intro, fun res' c' h => ?_⟩
+    cases h
+    exact ⟨hl, by omega, rfl⟩
+  | k+1, pos, res, cur, c, hl => by
+    unfold sups
+    constructor
+    · refine bind_noPanic (u8_noPanic _ _ _) (fun code hc => ?_)
+      have h1 := (u8_ok hc).1
+      rw [idx_ok _ res code (by omega), ok_bind]
+      split
+      · exact True.intro
+      · refine bind_noPanic (u16_noPanic _ _ _) (fun sid _ => ?_)
+        dsimp only
+        split
+        · exact True.intro
+        · split
+          · rw [setAt_ok _ _ _ _ (by omega), ok_bind]
+            exact (sups_spec b charset k (pos + 3) _ cur (c.tick 2)
+              (by rw [List.length_set]; exact hl)).1
+          · rw [ok_bind]
+            exact (sups_spec b charset k (pos + 3) res cur (c.tick 2) hl).1
+    · intro res' c' h
+      obtain ⟨code, hc, h⟩ := bind_eq_ok h
+      have h1 := (u8_ok hc).1
+      rw [idx_ok _ res code (by omega), ok_bind] at h
+      split at h
+      · cases h
+      · obtain ⟨sid, _, h⟩ := bind_eq_ok h
+        dsimp only at h
+        split at h
+        · cases h
+        · split at h
+          · rw [setAt_ok _ _ _ _ (by omega), ok_bind] at h
+            obtain ⟨i1, i2, i3⟩ := (sups_spec b charset k (pos + 3) _ cur (c.tick 2)
+              (by rw [List.length_set]; exact hl)).2 _ _ h
+            simp only [Cost.tick] at i2 i3 ⊢
+            exact ⟨i1, by omega, by omega⟩
+          · rw [ok_bind] at h
+            obtain ⟨i1, i2, i3⟩ := (sups_spec b charset k (pos + 3) res cur (c.tick 2) hl).2 _ _ h
+            simp only [Cost.tick] at i2 i3 ⊢
+            exact ⟨i1, by omega, by omega⟩
+
+theorem primary_spec (b : Bytes) (nCs format : Nat) (c : Cost) :
+    (primary b nCs format c).noPanic ∧
+      ∀ res cur pos c', primary b nCs format c = .ok ((res, cur, pos), c') →
+        res.length = 256 ∧ c'.steps ≤ c.steps + 65791 ∧ c'.alloc ≤ c.alloc + 255 := by
+  have h0 : (List.replicate 256 (0 : Nat)).length = 256 := List.length_replicate
+  unfold primary
+  dsimp only
+  split
+  · constructor
+    · refine bind_noPanic (u8_noPanic _ _ _) (fun nCodes hn => ?_)
+      have h1 := (u8_ok hn).1
+      split
+      · exact True.intro
+      · rw [Gdef.mkSlice_ok _ _ _ (by omega), ok_bind]
+        refine bind_noPanic (pRead_noPanic _ _ _) (fun codes _ => ?_)
+        refine bind_noPanic (codes0_spec codes _ 1 _ h0).1 (fun r _ => ?_)
+        exact True.intro
+    · intro res cur pos c' h
+      obtain ⟨nCodes, hn, h⟩ := bind_eq_ok h
+      have h1 := (u8_ok hn).1
+      split at h
+      · cases h
+      · rw [Gdef.mkSlice_ok _ _ _ (by omega), ok_bind] at h
+        obtain ⟨codes, hcodes, h⟩ := bind_eq_ok h
+        obtain ⟨⟨⟨res1, cur1⟩, c1⟩, hc, h⟩ := bind_eq_ok h
+        obtain ⟨i1, i2, i3⟩ := (codes0_spec codes _ 1 _ h0).2 _ _ _ hc
+        have hl := (pRead_ok hcodes).1
+        cases h
+        simp only [Cost.tick, Cost.mem] at i2 i3 ⊢
+        exact ⟨i1, by omega, by omega⟩
+  · split
+    · constructor
+      · refine bind_noPanic (u8_noPanic _ _ _) (fun nRanges _ => ?_)
+        exact (ranges1_spec b nCs nRanges 2 _ 1 _ h0).1
+      · intro res cur pos c' h
+        obtain ⟨nRanges, hn, h⟩ := bind_eq_ok h
+        have h1 := (u8_ok hn).1
+        obtain ⟨i1, i2, i3⟩ := (ranges1_spec b nCs nRanges 2 _ 1 _ h0).2 _ _ _ _ h
+        simp only [Cost.tick] at i2 i3 ⊢
+        exact ⟨i1, by omega, by omega⟩
+    · exact ⟨True.intro, fun _ _ _ _ h => by cases h⟩
+
+/-- `readEncoding` never panics: for ALL bytes and ALL charsets (any length including 0 and
+> 65535, any int32 entries) -/
+theorem readEncoding_noPanic (b : Bytes) (charset : List Int) : (readEncoding b charset).noPanic := by
+  unfold readEncoding
+  refine bind_noPanic (u8_noPanic _ _ _) (fun format _ => ?_)
+  rw [Gdef.mkSlice_ok _ _ _ (by omega), ok_bind]
+  have hp := primary_spec b charset.length format ((Cost.zero.tick).mem 256)
+  refine bind_noPanic hp.1 (fun r hr => ?_)
+  obtain ⟨⟨res, cur, pos⟩, c⟩ := r
+  dsimp only
+  split
+  · refine bind_noPanic (u8_noPanic _ _ _) (fun nSups _ => ?_)
+    exact (sups_spec b charset nSups _ res cur _ (hp.2 _ _ _ _ hr).1).1
+  · exact True.intro
+
+/-- cost of `readEncoding`: a constant plus (only with a supplement) one step and one map entry
+per charset element; the result always has 256 entries.  The constant 66304 = 1 + 1 + 255·258
+(format 1: at most 255 ranges of two reads and at most 256 codes) + 1 + 2·255 (supplement). -/
+theorem readEncoding_cost (b : Bytes) (charset : List Int) (res : List Nat) (c : Cost)
+    (h : readEncoding b charset = .ok (res, c)) :
+    res.length = 256 ∧ c.steps ≤ charset.length + 66304 ∧ c.alloc ≤ charset.length + 511 := by
+  unfold readEncoding at h
+  obtain ⟨format, _, h⟩ := bind_eq_ok h
+  rw [Gdef.mkSlice_ok _ _ _ (by omega), ok_bind] at h
+  have hp := primary_spec b charset.length format ((Cost.zero.tick).mem 256)
+  obtain ⟨⟨⟨res1, cur, pos⟩, c1⟩, hr, h⟩ := bind_eq_ok h
+  obtain ⟨p1, p2, p3⟩ := hp.2 _ _ _ _ hr
+  dsimp only at h
+  simp only [Cost.tick, Cost.mem, Cost.zero] at p2 p3
+  split at h
+  · obtain ⟨nSups, hn, h⟩ := bind_eq_ok h
+    have h1 := (u8_ok hn).1
+    obtain ⟨i1, i2, i3⟩ := (sups_spec b charset nSups _ res1 cur _ p1).2 _ _ h
+    simp only [Cost.tick, Cost.mem] at i2 i3
+    exact ⟨i1, by omega, by omega⟩
+  · cases h
+    exact ⟨p1, by omega, by omega⟩
+
+/-! ## `readFDSelect` -/
+
+theorem mkSliceInt_ok (site : String) (n : Int) (c : Cost) (h0 : 0 ≤ n) (h1 : n < 2 ^ 47) :
+    mkSliceInt site n c = .ok (c.mem n.toNat) := by
+  unfold mkSliceInt
+  rw [if_neg (by omega)]
+
+/-- the check loop of format 0: no panic while `i + k ≤ len(buf)`; on success every byte in
+`[i, i+k)` is below `nPrivate`; one step per glyph -/
+theorem check0_spec (buf : Bytes) (nPrivate : Int) : ∀ (k i : Nat) (c : Cost),
+    i + k ≤ buf.length → (check0 buf nPrivate k i c).noPanic ∧
+      ∀ c', check0 buf nPrivate k i c = .ok c' →
+        c'.steps = c.steps + k ∧ c'.alloc = c.alloc ∧
+        ∀ j (hj : j < buf.length), i ≤ j → j < i + k → (buf[j].toNat : Int) < nPrivate
+  | 0, i, c, _ => by
+    unfold check0
+    refine ⟨True.intro, fun c' h => ?_⟩
+    cases h
+    exact ⟨rfl, rfl, fun j _ h1 h2 => by omega⟩
+  | k+1, i, c, hi => by
+    unfold check0
+    rw [idx_ok _ buf i (by omega), ok_bind]
+    split
+    · exact ⟨True.intro, fun _ h => by cases h⟩
+    · rename_i hlt
+      have ih := check0_spec buf nPrivate k (i + 1) c.tick (by omega)
+      refine ⟨ih.1, fun c' h => ?_⟩
+      obtain ⟨i1, i2, i3⟩ := ih.2 c' h
+      simp only [Cost.tick] at i1 i2 ⊢
+      refine ⟨by omega, by omega, fun j hj h1 h2 => ?_⟩
+      by_cases hji : j = i
+      · subst hji
+        omega
+      · exact i3 j hj (by omega) (by omega)
+
+theorem ranges3_noPanic (b : Bytes) (nPrivate : Int) : ∀ (k i pos prev : Nat) (c : Cost),
+    (ranges3 b nPrivate k i pos prev c).noPanic
+  | 0, _, _, _, _ => True.intro
+  | k+1, i, pos, prev, c => by
+    unfold ranges3
+    refine bind_noPanic (u16_noPanic _ _ _) (fun first _ => ?_)
+    split
+    · exact True.intro
+    · refine bind_noPanic (u8_noPanic _ _ _) (fun fd _ => ?_)
+      split
+      · exact True.intro
+      · dsimp only
+        refine bind_noPanic (ranges3_noPanic b nPrivate k _ _ _ _) (fun r _ => ?_)
+        exact True.intro
+
+/-- the range loop of format 3: `end` gets one entry per range after the first, `fdIdx` one per
+range, every stored FD is below `nPrivate`; two reads per range, three bytes per range -/
+theorem ranges3_ok (b : Bytes) (nPrivate : Int) : ∀ (k i pos prev : Nat) (c : Cost)
+    (es fs : List Nat) (c' : Cost), ranges3 b nPrivate k i pos prev c = .ok ((es, fs), c') →
+      fs.length = k ∧ (0 < i → es.length = k) ∧ (i = 0 → es.length = k - 1) ∧
+      (∀ fd ∈ fs, (fd : Int) < nPrivate) ∧
+      c'.steps = c.steps + 2 * k ∧ c'.alloc ≤ c.alloc + 2 * k ∧ (k = 0 ∨ pos + 3 * k ≤ b.length)
+  | 0, _, _, _, c, es, fs, c', h => by
+    unfold ranges3 at h
+    cases h
+    exact ⟨rfl, fun _ => rfl, fun _ => rfl, (fun _ h => by cases h), by omega, by omega, Or.inl rfl⟩
+  | k+1, i, pos, prev, c, es, fs, c', h => by
+    unfold ranges3 at h
+    obtain ⟨first, hfirst, h⟩ := bind_eq_ok h
+    split at h
+    · cases h
+    · obtain ⟨fd, hfd, h⟩ := bind_eq_ok h
+      split at h
+      · cases h
+      · rename_i hlt
+        dsimp only at h
+        obtain ⟨⟨⟨es1, fs1⟩, c1⟩, h1, h⟩ := bind_eq_ok h
+        obtain ⟨i1, i2, _, i4, i5, i6, i7⟩ := ranges3_ok b nPrivate k (i + 1) (pos + 3) first _ es1 fs1 c1 h1
+        have i2 := i2 (by omega)
+        have hp := (u8_ok hfd).2
+        cases h
+        simp only [Cost.tick, Cost.mem] at i5 i6
+        dsimp only
+        refine ⟨by simp only [List.length_cons]; omega, fun hi => ?_, fun hi => ?_, ?_, ?_, ?_, ?_⟩
+        · rw [if_pos hi, List.length_cons]; omega
+        · rw [if_neg (by omega)]; omega
+        · intro x hx
+          rcases List.mem_cons.mp hx with hx | hx
+          · subst hx; omega
+          · exact i4 x hx
+        · omega
+        · split at i6 <;> omega
+        · right; omega
+
+/-- `readFDSelect` does not panic when `0 ≤ nGlyphs < 2^47`.  The caller `cff.Read` passes
+`nGlyphs = len(charStrings)`, the count of an INDEX (≤ 65535), and `nPrivate = len(cff.Private)`;
+`nPrivate` may be ANY int here.  For negative `nGlyphs` the `make` of format 0 panics
+(`readFDSelect_neg_panics`): a guard of the unexported function, not reachable from `cff.Read`. -/
+theorem readFDSelect_noPanic (b : Bytes) (nGlyphs nPrivate : Int) (h0 : 0 ≤ nGlyphs)
+    (h1 : nGlyphs < 2 ^ 47) : (readFDSelect b nGlyphs nPrivate).noPanic := by
+  unfold readFDSelect
+  refine bind_noPanic (u8_noPanic _ _ _) (fun format _ => ?_)
+  dsimp only
+  split
+  · rw [mkSliceInt_ok _ _ _ h0 h1, ok_bind]
+    refine bind_noPanic (pRead_noPanic _ _ _) (fun buf hbuf => ?_)
+    have hl := (pRead_ok hbuf).1
+    refine bind_noPanic (check0_spec buf nPrivate _ 0 _ (by omega)).1 (fun c _ => ?_)
+    exact True.intro
+  · split
+    · refine bind_noPanic (u16_noPanic _ _ _) (fun nRanges _ => ?_)
+      split
+      · exact True.intro
+      · refine bind_noPanic (ranges3_noPanic b nPrivate _ _ _ _ _) (fun r _ => ?_)
+        obtain ⟨⟨es, fs⟩, c⟩ := r
+        dsimp only
+        refine bind_noPanic (u16_noPanic _ _ _) (fun sentinel _ => ?_)
+        split <;> exact True.intro
+    · exact True.intro
+
+/-- format 3 never panics, whatever the two ints are (a negative `nGlyphs` can not equal the
+sentinel: error) -/
+theorem readFDSelect_noPanic_fmt3 (b : Bytes) (nGlyphs nPrivate : Int) (hb : b.head? ≠ some 0) :
+    (readFDSelect b nGlyphs nPrivate).noPanic := by
+  unfold readFDSelect
+  refine bind_noPanic (u8_noPanic _ _ _) (fun format hf => ?_)
+  dsimp only
+  split
+  · rename_i h0
+    exfalso
+    rw [u8_eq] at hf
+    split at hf
+    · rename_i hl
+      cases hf
+      apply hb
+      cases b with
+      | nil => cases hl
+      | cons x rest =>
+        simp only [List.getElem_cons_zero] at h0
+        simp only [List.head?_cons]
+        congr 1
+        exact UInt8.toNat_inj.mp h0
+    · cases hf
+  · split
+    · refine bind_noPanic (u16_noPanic _ _ _) (fun nRanges _ => ?_)
+      split
+      · exact True.intro
+      · refine bind_noPanic (ranges3_noPanic b nPrivate _ _ _ _ _) (fun r _ => ?_)
+        obtain ⟨⟨es, fs⟩, c⟩ := r
+        dsimp only
+        refine bind_noPanic (u16_noPanic _ _ _) (fun sentinel _ => ?_)
+        split <;> exact True.intro
+    · exact True.intro
+
+/-- the guard: format 0 with a negative glyph count panics at the `make` (Go: "makeslice: len out
+of range"; confirmed on the real code, case `tmcffsets.fdselect bytes=00 n=-1 np=1`) -/
+theorem readFDSelect_neg_panics (rest : Bytes) (nGlyphs nPrivate : Int) (h : nGlyphs < 0) :
+    readFDSelect (0 :: rest) nGlyphs nPrivate = .panic "fdselect.go:39#make([]uint8, nGlyphs)" := by
+  unfold readFDSelect
+  rw [u8_eq, dif_pos (by simp)]
+  simp only [List.getElem_cons_zero, ok_bind]
+  unfold mkSliceInt
+  rw [if_pos (Or.inl h)]
+  rfl
+
+/-- what a successful `readFDSelect` returns -/
+theorem readFDSelect_ok (b : Bytes) (nGlyphs nPrivate : Int) (fn : FdSel) (c : Cost)
+    (h : readFDSelect b nGlyphs nPrivate = .ok (fn, c)) :
+    0 ≤ nGlyphs ∧
+    ((∃ buf, fn = .f0 buf ∧ buf.length = nGlyphs.toNat ∧ nGlyphs.toNat + 1 ≤ b.length ∧
+        (∀ j (hj : j < buf.length), (buf[j].toNat : Int) < nPrivate) ∧
+        c.steps = nGlyphs.toNat + nGlyphs.toNat / 1024 + 2 ∧ c.alloc = nGlyphs.toNat) ∨
+     (∃ nR ends fdIdx, fn = .f3 nR ends fdIdx ∧ fdIdx.length = nR ∧ (∀ fd ∈ fdIdx, (fd : Int) < nPrivate) ∧
+        (0 < nR → ends.length = nR ∧ ends[nR - 1]? = some nGlyphs.toNat) ∧
+        (nR = 0 → nGlyphs = 0) ∧ nGlyphs < 65536 ∧ 3 * nR + 5 ≤ b.length ∧
+        c.steps = 2 * nR + 3 ∧ c.alloc ≤ 2 * nR + 1)) := by
+  unfold readFDSelect at h
+  obtain ⟨format, hfmt, h⟩ := bind_eq_ok h
+  have hb1 := (u8_ok hfmt).2
+  dsimp only at h
+  split at h
+  · obtain ⟨c1, hc1, h⟩ := bind_eq_ok h
+    unfold mkSliceInt at hc1
+    split at hc1
+    · cases hc1
+    · rename_i hn
+      cases hc1
+      obtain ⟨buf, hbuf, h⟩ := bind_eq_ok h
+      obtain ⟨c2, hc2, h⟩ := bind_eq_ok h
+      cases h
+      obtain ⟨hl, hle⟩ := pRead_ok hbuf
+      obtain ⟨k1, k2, k3⟩ := (check0_spec buf nPrivate _ 0 _ (by omega)).2 _ hc2
+      simp only [Cost.tick, Cost.mem, Cost.zero] at k1 k2
+      refine ⟨by omega, Or.inl ⟨buf, rfl, hl, by omega, fun j hj => k3 j hj (by omega) (by omega), by omega, by omega⟩⟩
+  · split at h
+    · obtain ⟨nRanges, hnr, h⟩ := bind_eq_ok h
+      split at h
+      · cases h
+      · rename_i hz
+        obtain ⟨⟨⟨es, fs⟩, c1⟩, hr, h⟩ := bind_eq_ok h
+        dsimp only at h
+        obtain ⟨sentinel, hs, h⟩ := bind_eq_ok h
+        split at h
+        · cases h
+        · rename_i hsent
+          cases h
+          obtain ⟨r1, _, r3, r4, r5, r6, r7⟩ := ranges3_ok b nPrivate nRanges 0 3 0 _ es fs c1 hr
+          have r3 := r3 rfl
+          have hs1 := (u16_ok hs).1
+          have hs2 := (u16_ok hs).2
+          have hsn : nGlyphs = (sentinel : Int) := by
+            by_cases hx : (sentinel : Int) = nGlyphs
+            · exact hx.symm
+            · exact absurd hx hsent
+          have htn : nGlyphs.toNat = sentinel := by rw [hsn]; rfl
+          simp only [Cost.tick, Cost.mem, Cost.zero] at r5 r6 ⊢
+          refine ⟨by omega, Or.inr ⟨nRanges, es ++ [sentinel], fs, rfl, r1, r4, fun hpos => ?_, fun h0 => ?_,
+            by omega, by omega, by omega, by omega⟩⟩
+          · refine ⟨by rw [List.length_append, List.length_singleton]; omega, ?_⟩
+            rw [htn, List.getElem?_append_right (by omega)]
+            have : nRanges - 1 - es.length = 0 := by omega
+            rw [this]
+            rfl
+          · by_cases hg : nGlyphs > 0
+            · exact absurd ⟨hg, h0⟩ hz
+            · omega
+    · cases h
+
+/-- cost of `readFDSelect`: LINEAR in the input (format 0 reads `nGlyphs` bytes that must be
+present; format 3 spends two reads per 3-byte range) -/
+theorem readFDSelect_cost (b : Bytes) (nGlyphs nPrivate : Int) (fn : FdSel) (c : Cost)
+    (h : readFDSelect b nGlyphs nPrivate = .ok (fn, c)) :
+    c.steps ≤ 2 * b.length + 1 ∧ c.alloc ≤ b.length := by
+  obtain ⟨_, h | h⟩ := readFDSelect_ok b nGlyphs nPrivate fn c h
+  · obtain ⟨buf, _, _, h1, _, h2, h3⟩ := h
+    have := Nat.div_le_self nGlyphs.toNat 1024
+    omega
+  · obtain ⟨nR, ends, fdIdx, _, _, _, _, _, _, h1, h2, h3⟩ := h
+    omega
+
+/-! ## the lazy accessor -/
+
+/-- the binary search with the possibly NON-monotone predicate `gid < end[i]` (the sentinel is
+not compared with the last `first`, so `end` need not be sorted): as long as the predicate holds
+at the last index the result is a valid index -/
+theorem search_lt (ends : List Nat) (gid N n : Nat) (hlen : ends.length = N)
+    (hlast : ends[N - 1]? = some n) (hg : gid < n) : ∀ (fuel i j : Nat), i ≤ j → j ≤ N → i < N →
+    ∃ r, search ends gid fuel i j = .ok r ∧ r < N
+  | 0, i, j, _, _, hi => ⟨i, rfl, hi⟩
+  | fuel+1, i, j, hij, hj, hi => by
+    unfold search
+    split
+    · rename_i hlt
+      dsimp only
+      rw [idx_ok _ ends ((i + j) / 2) (by omega), ok_bind]
+      split
+      · exact search_lt ends gid N n hlen hlast hg fuel i _ (by omega) (by omega) hi
+      · rename_i hge
+        refine search_lt ends gid N n hlen hlast hg fuel _ j (by omega) hj ?_
+        by_cases hh : (i + j) / 2 + 1 < N
+        · exact hh
+        · exfalso
+          have he : (i + j) / 2 = N - 1 := by omega
+          rw [List.getElem?_eq_getElem (by omega)] at hlast
+          have := Option.some.inj hlast
+          apply hge
+          have h2 : ends[(i + j) / 2]'(by omega) = ends[N - 1]'(by omega) := by congr 1
+          omega
+    · exact ⟨i, rfl, hi⟩
+
+/-- LAZY-ACCESSOR SAFETY: on every glyph below `nGlyphs` the function returned by a successful
+`readFDSelect` does not panic and returns an FD below `nPrivate` (so `decoders[fdIdx]` in
+read.go:281 is in range) -/
+theorem lookup_safe (b : Bytes) (nGlyphs nPrivate : Int) (fn : FdSel) (c : Cost)
+    (h : readFDSelect b nGlyphs nPrivate = .ok (fn, c)) (gid : Nat) (hg : (gid : Int) < nGlyphs) :
+    ∃ fd, lookup fn gid = .ok fd ∧ (fd : Int) < nPrivate := by
+  obtain ⟨h0, h | h⟩ := readFDSelect_ok b nGlyphs nPrivate fn c h
+  · obtain ⟨buf, rfl, hl, _, hall, _⟩ := h
+    have hgl : gid < buf.length := by omega
+    refine ⟨buf[gid].toNat, ?_, hall gid hgl⟩
+    rw [lookup, idx_ok _ buf gid hgl]
+    rfl
+  · obtain ⟨nR, ends, fdIdx, rfl, hfl, hfd, hends, hzero, _⟩ := h
+    have hpos : 0 < nR := by
+      by_cases hz : nR = 0
+      · have := hzero hz; omega
+      · omega
+    obtain ⟨hel, hlast⟩ := hends hpos
+    obtain ⟨r, hr, hrlt⟩ := search_lt ends gid nR nGlyphs.toNat hel hlast (by omega) (nR + 1) 0 nR
+      (by omega) (by omega) hpos
+    refine ⟨fdIdx[r]'(by omega), ?_, hfd _ (List.getElem_mem _)⟩
+    rw [lookup, hr, ok_bind, idx_ok _ fdIdx r (by omega)]
+
+/-- for ANY glyph id the accessor never yields an error, and a value it yields is an FD below
+`nPrivate`; out of range (`gid ≥ nGlyphs`) it may panic (index out of range) -/
+theorem lookup_value (b : Bytes) (nGlyphs nPrivate : Int) (fn : FdSel) (c : Cost)
+    (h : readFDSelect b nGlyphs nPrivate = .ok (fn, c)) (gid : Nat) :
+    (∃ s, lookup fn gid = .panic s) ∨ ∃ fd, lookup fn gid = .ok fd ∧ (fd : Int) < nPrivate := by
+  obtain ⟨h0, h | h⟩ := readFDSelect_ok b nGlyphs nPrivate fn c h
+  · obtain ⟨buf, rfl, hl, _, hall, _⟩ := h
+    rw [lookup]
+    by_cases hgl : gid < buf.length
+    · rw [idx_ok _ buf gid hgl]
+      exact Or.inr ⟨_, rfl, hall gid hgl⟩
+    · left
+      unfold idx
+      rw [List.getElem?_eq_none (by omega)]
+      exact ⟨_, rfl⟩
+  · obtain ⟨nR, ends, fdIdx, rfl, hfl, hfd, _⟩ := h
+    rw [lookup]
+    cases hs : search ends gid (nR + 1) 0 nR with
+    | panic s => exact Or.inl ⟨s, rfl⟩
+    | err e =>
+      exfalso
+      -- `search` has no error exit
+      have : ∀ (fuel i j : Nat) (e : String), search ends gid fuel i j ≠ .err e := by
+        intro fuel
+        induction fuel with
+        | zero => intro i j e h; cases h
+        | succ fuel ih =>
+          intro i j e h
+          unfold search at h
+          split at h
+          · dsimp only at h
+            rcases bind_eq_err h with h | ⟨v, hv, h⟩
+            · unfold idx at h
+              split at h <;> cases h
+            · split at h
+              · exact ih _ _ _ h
+              · exact ih _ _ _ h
+          · cases h
+      exact this _ _ _ _ hs
+    | ok r =>
+      rw [ok_bind]
+      by_cases hr : r < fdIdx.length
+      · rw [idx_ok _ fdIdx r hr]
+        exact Or.inr ⟨_, rfl, hfd _ (List.getElem_mem _)⟩
+      · left
+        unfold idx
+        rw [List.getElem?_eq_none (by omega)]
+        exact ⟨_, rfl⟩
+
+/-- format 0 out of range: the accessor ALWAYS panics for `gid ≥ nGlyphs` -/
+theorem lookup_f0_oob (b : Bytes) (nGlyphs nPrivate : Int) (buf : Bytes) (c : Cost)
+    (h : readFDSelect b nGlyphs nPrivate = .ok (.f0 buf, c)) (gid : Nat) (hg : nGlyphs ≤ (gid : Int)) :
+    lookup (.f0 buf) gid = .panic "fdselect.go:50#buf[gid]" := by
+  obtain ⟨h0, h | h⟩ := readFDSelect_ok b nGlyphs nPrivate _ c h
+  · obtain ⟨buf', heq, hl, _⟩ := h
+    cases heq
+    rw [lookup]
+    unfold idx
+    rw [List.getElem?_eq_none (by omega)]
+    rfl
+  · obtain ⟨_, _, _, heq, _⟩ := h
+    cases heq
+
+/-! ## the cost of `readCharset` is not bounded by the input length -/
+
+theorem ranges_done (b : Bytes) (w n : Nat) (fuel len pos : Nat) (c : Cost) (h : ¬ len < n) :
+    ranges b w n fuel len pos c = .ok (([], pos), c) := by
+  cases fuel with
+  | zero => unfold ranges; rw [if_neg h]
+  | succ fuel => unfold ranges; rw [if_neg h]
+
+theorem run_total (n first : Nat) : ∀ (k i len : Nat) (c : Cost), first + i + k ≤ 0x10000 →
+    ∃ l c', run n first k i len c = .ok (l, c')
+  | 0, _, _, c, _ => ⟨[], c, rfl⟩
+  | k+1, i, len, c, h => by
+    unfold run
+    rw [if_neg (by omega)]
+    dsimp only
+    obtain ⟨l, c', hr⟩ := run_total n first k (i + 1) (len + 1)
+      (if len ≥ n then (c.tick).mem 1 else c.tick) (by omega)
+    rw [hr, ok_bind]
+    exact ⟨_, _, rfl⟩
+
+/-- WITNESS: a 5-byte format-2 charset (one range `first = 1`, `nLeft = N`) costs `N + 4` steps
+and `N + 2` allocated elements for every `N ≤ 65533`: the cost of `readCharset` is bounded by the
+caller's glyph count (`readCharset_cost`), not by the number of input bytes. -/
+theorem readCharset_cost_witness (hi lo : UInt8) (N : Nat) (hNdef : hi.toNat * 256 + lo.toNat = N)
+    (hN : N ≤ 65533) :
+    ∃ l pos c, readCharset [2, 0, 1, hi, lo] ((N + 2 : Nat) : Int) = .ok ((l, pos), c) ∧
+      c.steps = N + 4 ∧ c.alloc = N + 2 := by
+  have hlen : ([2, 0, 1, hi, lo] : Bytes).length = 5 := rfl
+  unfold readCharset
+  rw [if_neg (by omega)]
+  dsimp only
+  rw [Int.toNat_natCast, u8_eq, dif_pos (by rw [hlen]; omega), ok_bind,
+    Gdef.mkSlice_ok _ _ _ (by omega), ok_bind]
+  have h2 : (([2, 0, 1, hi, lo] : Bytes)[0]'(by rw [hlen]; omega)).toNat = 2 := rfl
+  rw [h2, if_neg (by omega), if_pos (Or.inr rfl)]
+  unfold ranges
+  rw [if_pos (by omega), u16_eq, dif_pos (by rw [hlen]; omega), ok_bind, if_neg (by omega),
+    u16_eq, dif_pos (by rw [hlen]; omega), ok_bind]
+  have hf : (([2, 0, 1, hi, lo] : Bytes)[1]'(by rw [hlen]; omega)).toNat * 256 +
+      (([2, 0, 1, hi, lo] : Bytes)[1 + 1]'(by rw [hlen]; omega)).toNat = 1 := by simp
+  have hn : (([2, 0, 1, hi, lo] : Bytes)[1 + 2]'(by rw [hlen]; omega)).toNat * 256 +
+      (([2, 0, 1, hi, lo] : Bytes)[1 + 2 + 1]'(by rw [hlen]; omega)).toNat = N := hNdef
+  rw [hf, hn]
+  obtain ⟨l1, c1, hr⟩ := run_total (N + 2) 1 (N + 1) 0 1 (((Cost.zero.tick).mem (N + 2)).tick 2)
+    (by omega)
+  obtain ⟨r1, r2, _, _, r5⟩ := run_ok _ _ _ _ _ _ _ _ hr
+  have r5 := r5 (by omega)
+  rw [hr, ok_bind]
+  dsimp only
+  rw [ranges_done _ _ _ _ _ _ _ (by omega), ok_bind, ok_bind]
+  dsimp only
+  rw [if_neg (by rw [List.length_append, r1, List.length_nil]; omega)]
+  refine ⟨_, _, _, rfl, ?_, ?_⟩
+  · rw [r2]; simp only [Cost.tick, Cost.mem, Cost.zero]; omega
+  · rw [r5]; simp only [Cost.tick, Cost.mem, Cost.zero]; omega
+
+/-! ## non-vacuity -/
+
+example : readCharset [0, 0, 7] 2 = .ok (([0, 7], 3), ⟨2, 2⟩) := by decide +kernel
+example : readCharset [1, 0, 5, 1, 1, 0, 0] 4 = .ok (([0, 5, 6, 256], 7), ⟨8, 4⟩) := by decide +kernel
+example : readCharset [2, 0, 5, 0, 2] 4 = .ok (([0, 5, 6, 7], 5), ⟨6, 4⟩) := by decide +kernel
+example : (readEncoding [0, 2, 65, 66] [0, 34, 35]).isOk = true := by decide +kernel
+/-- format 1 with a supplement: glyph 1 at codes 65 and 70, glyph 2 at code 66 -/
+example : (match readEncoding [0x81, 1, 65, 1, 1, 70, 0, 34] [0, 34, 35] with
+    | .ok (r, _) => (r.drop 64).take 8 == [0, 1, 2, 0, 0, 0, 1, 0]
+    | _ => false) = true := by decide +kernel
+example : readFDSelect [0, 1, 0, 1] 3 2 = .ok (.f0 [1, 0, 1], ⟨5, 3⟩) := by decide +kernel
+example : readFDSelect [3, 0, 2, 0, 0, 0, 0, 2, 1, 0, 3] 3 2 = .ok (.f3 2 [2, 3] [0, 1], ⟨7, 4⟩) := by
+  decide +kernel
+example : lookups (.f3 2 [2, 3] [0, 1]) [0, 1, 2] = .ok [0, 0, 1] := by decide +kernel
+/-- out of range the accessor panics … -/
+example : lookup (.f3 2 [2, 3] [0, 1]) 3 = .panic "fdselect.go:95#fdIdx[idx]" := by decide +kernel
+/-- … or, when the sentinel lies below an earlier boundary (accepted: `end` is not sorted),
+returns a value: glyph 7 of a 5-glyph font -/
+example : readFDSelect [3, 0, 3, 0, 0, 0, 0, 10, 1, 0, 20, 0, 0, 5] 5 2
+    = .ok (.f3 3 [10, 20, 5] [0, 1, 0], ⟨9, 6⟩) := by decide +kernel
+example : lookup (.f3 3 [10, 20, 5] [0, 1, 0]) 7 = .ok 0 := by decide +kernel
+example : lookup (.f3 3 [10, 20, 5] [0, 1, 0]) 30 = .panic "fdselect.go:95#fdIdx[idx]" := by
+  decide +kernel
 
 end SfntV.Total.CffSets
